@@ -26,8 +26,13 @@ import (
 var c20NameMenu = []string{"", "A", "dup", ".notdef", "a b", "f_i", "B", "orn001"}
 
 func c20Font(c *explore.Ctx) (*sfnt.Font, []string, string) {
+	return c20FontKinds(c, []int{0, 1, 2, 3, 4})
+}
+
+// c20FontKinds builds the font from choices; the outline / name-storage kind is one of kinds.
+func c20FontKinds(c *explore.Ctx, kinds []int) (*sfnt.Font, []string, string) {
 	n := 5
-	kind := c.Choose(5, "outline/names kind") // cff simple, cid, glyf nil names, glyf short names, glyf full names
+	kind := kinds[c.Choose(len(kinds), "outline/names kind")] // cff simple, cid, glyf nil names, glyf short names, glyf full names
 	orig := make([]string, n)
 	if kind != 1 && kind != 2 {
 		for i := 1; i < n; i++ {
@@ -209,187 +214,195 @@ func c20Check(c *explore.Ctx, sig string, orig, got []string, n int, desc string
 }
 
 func c20Names(r *run.Run) {
+	// the two kinds that carry no names at all (few cases) first, then the three that do
+	r.Explore(explore.Config{Name: "C20.names-unnamed", Bound: c20Bound(r), Deadline: r.PartDeadline(0.3)},
+		"5-glyph fonts without any glyph name (CID-keyed CFF, glyf without a names list) x all subsets of 6 cmap entries x 13 GSUB variants: same oracle as C20.names",
+		c20NamesBody([]int{1, 2}))
 	r.Explore(explore.Config{Name: "C20.names", Bound: c20Bound(r), Deadline: r.PartDeadline(0.95)},
-		"5-glyph fonts: 5 outline/name-storage kinds (CFF, CID, glyf with no / too short / full names list) x all name patterns over {empty, A, dup, .notdef, 'a b', f_i, B} per glyph x all subsets of 6 cmap entries (incl. a ligature character, a PUA and an astral code, two codes on one glyph) x 13 GSUB variants (1.1, 1.1 with a negative delta, 3.1 with an alternate shared by two covered glyphs, 3.1 with a covered alternate, a ligature set with a not yet nameable entry before a nameable one, 1.2 with two sources for one target, 3.1, 4.1, 4.1 with one output of two rules, two ligature lookups with equal components and different outputs, two single substitutions of one glyph, a ligature of a ligature): complete, distinct, .notdef first, unique names kept, inference from cmap / substitutions, retrievable after EnsureGlyphNames, identical on repeated calls",
-		func(c *explore.Ctx) {
-			f, orig, desc := c20Font(c)
-			c.Sample(func() any { return map[string]any{"names": orig, "font": desc} })
-			n := f.NumGlyphs()
-			got := f.MakeGlyphNames()
-			c.Outcome(desc, fmt.Sprint(orig), fmt.Sprint(got))
-			missing := false
-			for i, nm := range orig {
-				if nm == "" && i > 0 {
-					missing = true
+		"5-glyph fonts: 3 outline/name-storage kinds that carry names (CFF, glyf with a too short / a full names list; the two kinds without names: C20.names-unnamed) x all name patterns over {empty, A, dup, .notdef, 'a b', f_i, B} per glyph x all subsets of 6 cmap entries (incl. a ligature character, a PUA and an astral code, two codes on one glyph) x 13 GSUB variants (1.1, 1.1 with a negative delta, 3.1 with an alternate shared by two covered glyphs, 3.1 with a covered alternate, a ligature set with a not yet nameable entry before a nameable one, 1.2 with two sources for one target, 3.1, 4.1, 4.1 with one output of two rules, two ligature lookups with equal components and different outputs, two single substitutions of one glyph, a ligature of a ligature): complete, distinct, .notdef first, unique names kept, inference from cmap / substitutions, retrievable after EnsureGlyphNames, identical on repeated calls",
+		c20NamesBody([]int{0, 3, 4}))
+}
+
+func c20NamesBody(kinds []int) func(c *explore.Ctx) {
+	return func(c *explore.Ctx) {
+		f, orig, desc := c20FontKinds(c, kinds)
+		c.Sample(func() any { return map[string]any{"names": orig, "font": desc} })
+		n := f.NumGlyphs()
+		got := f.MakeGlyphNames()
+		c.Outcome(desc, fmt.Sprint(orig), fmt.Sprint(got))
+		missing := false
+		for i, nm := range orig {
+			if nm == "" && i > 0 {
+				missing = true
+			}
+		}
+		if missing {
+			c.Nontrivial()
+		}
+		sig := strings.SplitN(desc, ",", 2)[0]
+		if !c20Check(c, sig, orig, got, n, desc) {
+			return
+		}
+		// inference, as a reference model of the documented order: (1) existing names, the first of
+		// several equal names wins and glyph 0 is .notdef; (2) character map, code points in
+		// ascending order, the Adobe glyph-list name of the first code point whose name is still
+		// free; (3) substitution rules from glyphs that have a name by now: variant / ligature names;
+		// (4) numbered placeholders for the rest
+		ref := append([]string{}, orig...)
+		ref[0] = ".notdef"
+		taken := map[string]bool{}
+		for i, nm := range ref {
+			if taken[nm] {
+				ref[i] = ""
+			} else {
+				taken[nm] = true
+			}
+		}
+		if best, _ := f.CMapTable.GetBest(); best != nil {
+			for _, ru := range []rune{'A', 'B', 'x', 0xE000, 0xFB01, 0x10000} { // ascending
+				g := best.Lookup(ru)
+				if g == 0 || ref[g] != "" {
+					continue
+				}
+				if nm := names.FromUnicode(string(ru)); !taken[nm] {
+					ref[g], taken[nm] = nm, true
 				}
 			}
-			if missing {
-				c.Nontrivial()
-			}
-			sig := strings.SplitN(desc, ",", 2)[0]
-			if !c20Check(c, sig, orig, got, n, desc) {
+		}
+		for g := range ref {
+			if ref[g] != "" && got[g] != ref[g] {
+				c.Fail("C20.inference", sig+" cmap", "glyph %d: expected %q (existing name, or the glyph-list name of the first code point whose name is free), got %q (%q -> %q); %s", g, ref[g], got[g], orig, got, desc)
 				return
 			}
-			// inference, as a reference model of the documented order: (1) existing names, the first of
-			// several equal names wins and glyph 0 is .notdef; (2) character map, code points in
-			// ascending order, the Adobe glyph-list name of the first code point whose name is still
-			// free; (3) substitution rules from glyphs that have a name by now: variant / ligature names;
-			// (4) numbered placeholders for the rest
-			ref := append([]string{}, orig...)
-			ref[0] = ".notdef"
-			taken := map[string]bool{}
-			for i, nm := range ref {
-				if taken[nm] {
-					ref[i] = ""
-				} else {
-					taken[nm] = true
+		}
+		if f.Gsub != nil {
+			placeholder := regexp.MustCompile(`^orn[0-9]+$`)
+			nameable := map[glyph.ID]string{}
+			for _, l := range f.Gsub.LookupList {
+				for _, st := range l.Subtables {
+					switch st := st.(type) {
+					case *gtab.Gsub1_1:
+						for g := range st.Cov {
+							if ref[g] != "" {
+								nameable[g+st.Delta] = ref[g]
+							}
+						}
+					case *gtab.Gsub1_2:
+						for g, i := range st.Cov {
+							if ref[g] != "" {
+								nameable[st.SubstituteGlyphIDs[i]] = ref[g]
+							}
+						}
+					case *gtab.Gsub3_1:
+						for g, i := range st.Cov {
+							for _, t := range st.Alternates[i] {
+								if ref[g] != "" {
+									nameable[t] = ref[g]
+								}
+							}
+						}
+					case *gtab.Gsub4_1:
+						for g, i := range st.Cov {
+						ligs:
+							for _, lig := range st.Repl[i] {
+								if ref[g] == "" {
+									continue
+								}
+								for _, in := range lig.In {
+									if ref[in] == "" {
+										continue ligs
+									}
+								}
+								nameable[lig.Out] = ref[g]
+							}
+						}
+					}
 				}
 			}
-			if best, _ := f.CMapTable.GetBest(); best != nil {
-				for _, ru := range []rune{'A', 'B', 'x', 0xE000, 0xFB01, 0x10000} { // ascending
-					g := best.Lookup(ru)
-					if g == 0 || ref[g] != "" {
-						continue
-					}
-					if nm := names.FromUnicode(string(ru)); !taken[nm] {
-						ref[g], taken[nm] = nm, true
-					}
+			for g, base := range nameable {
+				if int(g) >= n || ref[g] != "" {
+					continue
 				}
-			}
-			for g := range ref {
-				if ref[g] != "" && got[g] != ref[g] {
-					c.Fail("C20.inference", sig+" cmap", "glyph %d: expected %q (existing name, or the glyph-list name of the first code point whose name is free), got %q (%q -> %q); %s", g, ref[g], got[g], orig, got, desc)
+				if placeholder.MatchString(got[g]) && !placeholder.MatchString(base) {
+					c.Fail("C20.inference", sig+" substitution", "glyph %d is the output of a substitution rule whose source glyphs are named (%q ...) but gets the placeholder %q instead of a variant / ligature name (%q -> %q); %s", g, base, got[g], orig, got, desc)
 					return
 				}
 			}
-			if f.Gsub != nil {
-				placeholder := regexp.MustCompile(`^orn[0-9]+$`)
-				nameable := map[glyph.ID]string{}
-				for _, l := range f.Gsub.LookupList {
-					for _, st := range l.Subtables {
-						switch st := st.(type) {
-						case *gtab.Gsub1_1:
-							for g := range st.Cov {
-								if ref[g] != "" {
-									nameable[g+st.Delta] = ref[g]
-								}
-							}
-						case *gtab.Gsub1_2:
-							for g, i := range st.Cov {
-								if ref[g] != "" {
-									nameable[st.SubstituteGlyphIDs[i]] = ref[g]
-								}
-							}
-						case *gtab.Gsub3_1:
-							for g, i := range st.Cov {
-								for _, t := range st.Alternates[i] {
-									if ref[g] != "" {
-										nameable[t] = ref[g]
-									}
-								}
-							}
-						case *gtab.Gsub4_1:
-							for g, i := range st.Cov {
-							ligs:
-								for _, lig := range st.Repl[i] {
-									if ref[g] == "" {
-										continue
-									}
-									for _, in := range lig.In {
-										if ref[in] == "" {
-											continue ligs
-										}
-									}
-									nameable[lig.Out] = ref[g]
-								}
+			// a name that is neither existing, nor from the character map, nor a placeholder is the
+			// variant name of SOME rule producing the glyph: the source's name (single / alternate
+			// substitution) or the component names joined by "_" (ligature), optionally followed
+			// by ".<number>" to make it unique
+			cands := map[glyph.ID][]string{}
+			for _, l := range f.Gsub.LookupList {
+				for _, st := range l.Subtables {
+					switch st := st.(type) {
+					case *gtab.Gsub1_1:
+						for g := range st.Cov {
+							cands[g+st.Delta] = append(cands[g+st.Delta], got[g])
+						}
+					case *gtab.Gsub1_2:
+						for g, i := range st.Cov {
+							cands[st.SubstituteGlyphIDs[i]] = append(cands[st.SubstituteGlyphIDs[i]], got[g])
+						}
+					case *gtab.Gsub3_1:
+						for g, i := range st.Cov {
+							for _, t := range st.Alternates[i] {
+								cands[t] = append(cands[t], got[g])
 							}
 						}
-					}
-				}
-				for g, base := range nameable {
-					if int(g) >= n || ref[g] != "" {
-						continue
-					}
-					if placeholder.MatchString(got[g]) && !placeholder.MatchString(base) {
-						c.Fail("C20.inference", sig+" substitution", "glyph %d is the output of a substitution rule whose source glyphs are named (%q ...) but gets the placeholder %q instead of a variant / ligature name (%q -> %q); %s", g, base, got[g], orig, got, desc)
-						return
-					}
-				}
-				// a name that is neither existing, nor from the character map, nor a placeholder is the
-				// variant name of SOME rule producing the glyph: the source's name (single / alternate
-				// substitution) or the component names joined by "_" (ligature), optionally followed
-				// by ".<number>" to make it unique
-				cands := map[glyph.ID][]string{}
-				for _, l := range f.Gsub.LookupList {
-					for _, st := range l.Subtables {
-						switch st := st.(type) {
-						case *gtab.Gsub1_1:
-							for g := range st.Cov {
-								cands[g+st.Delta] = append(cands[g+st.Delta], got[g])
-							}
-						case *gtab.Gsub1_2:
-							for g, i := range st.Cov {
-								cands[st.SubstituteGlyphIDs[i]] = append(cands[st.SubstituteGlyphIDs[i]], got[g])
-							}
-						case *gtab.Gsub3_1:
-							for g, i := range st.Cov {
-								for _, t := range st.Alternates[i] {
-									cands[t] = append(cands[t], got[g])
+					case *gtab.Gsub4_1:
+						for g, i := range st.Cov {
+							for _, lig := range st.Repl[i] {
+								parts := []string{got[g]}
+								for _, in := range lig.In {
+									parts = append(parts, got[in])
 								}
-							}
-						case *gtab.Gsub4_1:
-							for g, i := range st.Cov {
-								for _, lig := range st.Repl[i] {
-									parts := []string{got[g]}
-									for _, in := range lig.In {
-										parts = append(parts, got[in])
-									}
-									cands[lig.Out] = append(cands[lig.Out], strings.Join(parts, "_"))
-								}
+								cands[lig.Out] = append(cands[lig.Out], strings.Join(parts, "_"))
 							}
 						}
-					}
-				}
-				suffix := regexp.MustCompile(`^\.[0-9]+$`)
-				for g := 1; g < n; g++ {
-					if ref[g] != "" || placeholder.MatchString(got[g]) {
-						continue
-					}
-					ok := false
-					for _, cand := range cands[glyph.ID(g)] {
-						if got[g] == cand || strings.HasPrefix(got[g], cand) && suffix.MatchString(got[g][len(cand):]) {
-							ok = true
-						}
-					}
-					if !ok {
-						c.Fail("C20.inference", sig+" variant name", "glyph %d is called %q, which is neither an existing name, a glyph-list name of one of its characters, a placeholder, nor the variant / ligature name of a rule producing it (candidates %q); %q -> %q; %s", g, got[g], cands[glyph.ID(g)], orig, got, desc)
-						return
 					}
 				}
 			}
-			// stability: the same on every call
-			for k := 0; k < 1; k++ { // (map-order dependence is decided by C20.map-order under the map seam)
-				if again := f.MakeGlyphNames(); fmt.Sprint(again) != fmt.Sprint(got) {
-					c.FailObserved("C20.stable", sig+" repeated call", "MakeGlyphNames returned %q and then %q; original names %q; %s", got, again, orig, desc)
+			suffix := regexp.MustCompile(`^\.[0-9]+$`)
+			for g := 1; g < n; g++ {
+				if ref[g] != "" || placeholder.MatchString(got[g]) {
+					continue
+				}
+				ok := false
+				for _, cand := range cands[glyph.ID(g)] {
+					if got[g] == cand || strings.HasPrefix(got[g], cand) && suffix.MatchString(got[g][len(cand):]) {
+						ok = true
+					}
+				}
+				if !ok {
+					c.Fail("C20.inference", sig+" variant name", "glyph %d is called %q, which is neither an existing name, a glyph-list name of one of its characters, a placeholder, nor the variant / ligature name of a rule producing it (candidates %q); %q -> %q; %s", g, got[g], cands[glyph.ID(g)], orig, got, desc)
 					return
 				}
 			}
-			// installing the names makes them retrievable, and asking again gives the same list
-			f.EnsureGlyphNames()
-			var inst []string
-			for i := 0; i < n; i++ {
-				inst = append(inst, f.GlyphName(glyph.ID(i)))
-			}
-			if !c20Check(c, sig+" installed", orig, inst, n, desc) {
+		}
+		// stability: the same on every call
+		for k := 0; k < 1; k++ { // (map-order dependence is decided by C20.map-order under the map seam)
+			if again := f.MakeGlyphNames(); fmt.Sprint(again) != fmt.Sprint(got) {
+				c.FailObserved("C20.stable", sig+" repeated call", "MakeGlyphNames returned %q and then %q; original names %q; %s", got, again, orig, desc)
 				return
 			}
-			if fmt.Sprint(inst) != fmt.Sprint(got) {
-				c.FailObserved("C20.stable", sig+" install differs", "EnsureGlyphNames installed %q, MakeGlyphNames had returned %q; %s", inst, got, desc)
-			}
-			if again := f.MakeGlyphNames(); fmt.Sprint(again) != fmt.Sprint(inst) {
-				c.Fail("C20.installed", sig, "after EnsureGlyphNames the glyphs are called %q but MakeGlyphNames gives %q; %s", inst, again, desc)
-			}
-		})
+		}
+		// installing the names makes them retrievable, and asking again gives the same list
+		f.EnsureGlyphNames()
+		var inst []string
+		for i := 0; i < n; i++ {
+			inst = append(inst, f.GlyphName(glyph.ID(i)))
+		}
+		if !c20Check(c, sig+" installed", orig, inst, n, desc) {
+			return
+		}
+		if fmt.Sprint(inst) != fmt.Sprint(got) {
+			c.FailObserved("C20.stable", sig+" install differs", "EnsureGlyphNames installed %q, MakeGlyphNames had returned %q; %s", inst, got, desc)
+		}
+		if again := f.MakeGlyphNames(); fmt.Sprint(again) != fmt.Sprint(inst) {
+			c.Fail("C20.installed", sig, "after EnsureGlyphNames the glyphs are called %q but MakeGlyphNames gives %q; %s", inst, again, desc)
+		}
+	}
 }
 
 func c20Bound(r *run.Run) int {
